@@ -182,9 +182,20 @@ type solverSpec struct {
 	args func(timeoutS int) []string
 }
 
+// solverSeed is added to the z3 command lines when non-zero (thorough tier: stability under seeds).
+var solverSeed = 0
+
+func z3Args(bin string, t int) []string {
+	a := []string{bin, fmt.Sprintf("-T:%d", t)}
+	if solverSeed != 0 {
+		a = append(a, fmt.Sprintf("smt.random_seed=%d", solverSeed), fmt.Sprintf("sat.random_seed=%d", solverSeed))
+	}
+	return append(a, "-in")
+}
+
 var solvers = []solverSpec{
-	{"z3-new", func(t int) []string { return []string{"z3-new", fmt.Sprintf("-T:%d", t), "-in"} }},
-	{"z3", func(t int) []string { return []string{"z3", fmt.Sprintf("-T:%d", t), "-in"} }},
+	{"z3-new", func(t int) []string { return z3Args("z3-new", t) }},
+	{"z3", func(t int) []string { return z3Args("z3", t) }},
 	{"cvc5", func(t int) []string {
 		return []string{"cvc5", fmt.Sprintf("--tlimit=%d", t*1000), "--lang=smt2", "-"}
 	}},
